@@ -149,13 +149,14 @@ Definition escape (name : str) : str :=
   replace_char DOT [BSL; DOT] (replace_char COLON [BSL; COLON] (uesc name)).
 Definition unescape (name : str) : res str :=
   udec (unreplace COLON (unreplace DOT name)).
-(* _splitRe.split: at every '.' not preceded by a backslash *)
-Fixpoint split_dots (prev_bsl : bool) (s : str) : list str :=
+(* _splitRe.split + re-attaching the captured backslashes: cut at every '.' preceded by an
+   even number of backslashes.  [esc] = an odd number of backslashes immediately precedes *)
+Fixpoint split_dots (esc : bool) (s : str) : list str :=
   match s with
   | [] => [[]]
   | c :: s' =>
-      if (c =? DOT) && negb prev_bsl then [] :: split_dots false s'
-      else match split_dots (c =? BSL) s' with
+      if (c =? DOT) && negb esc then [] :: split_dots false s'
+      else match split_dots ((c =? BSL) && negb esc) s' with
            | p :: ps => (c :: p) :: ps
            | [] => [[c]]                      (* unreachable *)
            end
@@ -699,3 +700,43 @@ Definition run (v : value) : value :=
          L (map (vR vPV) rs)
   | _ => L []
   end.
+
+(* ------------------------------------------------------------------ *)
+(* reject-atomic: X.set / X.setValue of every inventory class as a statement program
+   (gen.T15.ATOMIC_TABLE, regenerated from the source).  State = has self.value been assigned
+   ("dirty").  [outs p d]: every outcome (dirty, raised) program p can have from state d, whatever the
+   checks, side effects and branch conditions do;  [exec p o d]: the run selected by the choice list o. *)
+Import gen.T15.
+Fixpoint outs (p : stm) (d : bool) : list (bool * bool) :=
+  match p with
+  | SSkip => [(d, false)]
+  | SCheck => [(d, false); (d, true)]
+  | SError => [(d, true)]
+  | SAssign => [(true, false)]
+  | SSeq a b => flat_map (fun x : bool * bool => if snd x then [(fst x, true)] else outs b (fst x)) (outs a d)
+  | SIf a b => outs a d ++ outs b d
+  | STry a h => flat_map (fun x : bool * bool => if snd x then (fst x, true) :: outs h (fst x) else [(fst x, false)]) (outs a d)
+  end.
+
+Fixpoint exec (p : stm) (o : list bool) (d : bool) : (bool * bool) * list bool :=
+  match p with
+  | SSkip => ((d, false), o)
+  | SCheck => match o with b :: o' => ((d, b), o') | [] => ((d, false), []) end
+  | SError => ((d, true), o)
+  | SAssign => ((true, false), o)
+  | SSeq a b => let '(x, o1) := exec a o d in if snd x then ((fst x, true), o1) else exec b o1 (fst x)
+  | SIf a b => match o with c :: o' => if c then exec a o' d else exec b o' d | [] => exec b [] d end
+  | STry a h =>
+      let '(x, o1) := exec a o d in
+      if snd x then
+        match o1 with
+        | c :: o2 => if c then exec h o2 (fst x) else ((fst x, true), o2)    (* caught / not this exception *)
+        | [] => ((fst x, true), [])
+        end
+      else ((fst x, false), o1)
+  end.
+
+(* no outcome both raises and has assigned *)
+Definition atomic (p : stm) : bool := forallb (fun x : bool * bool => negb (snd x && fst x)) (outs p false).
+Definition table_atomic (t : list (list N * stm * stm)) : bool :=
+  forallb (fun e : list N * stm * stm => atomic (snd (fst e)) && atomic (snd e)) t.
